@@ -1188,6 +1188,9 @@ class Interp:
             return self.module_global(m, name, mod)
         if name in ('len', 'int', 'float', 'range', 'zip', 'enumerate', 'list', 'tuple', 'isinstance', 'sum', 'min', 'max', 'abs', 'str', 'dict', 'bool', 'reversed', 'sorted', 'any', 'all', 'set', 'super', 'getattr', 'hasattr'):
             return ('builtin', name)
+        if name in ('map', 'filter', 'frozenset', 'divmod', 'round', 'pow', 'callable', 'slice', 'ord', 'chr', 'repr', 'iter', 'next',
+                    'print', 'id', 'type', 'format', 'bytes', 'bytearray'):
+            return ('builtin', name)
         if name in ('True', 'False', 'None'):
             return {'True': True, 'False': False, 'None': None}[name]
         raise OutOfFragment('unbound name %s in %s' % (name, mod))
@@ -2009,6 +2012,36 @@ class Interp:
                 k = kw['key']
                 kw = dict(kw, key=lambda x: self.apply(k, [x], {}))
             return sorted(*args, **kw)
+        if name == 'dict':
+            d = {}
+            if args:
+                src = args[0]
+                d.update(src if isinstance(src, dict) else {k: v for k, v in src})
+            d.update(kw)
+            return d
+        if name == 'bool':
+            v = args[0] if args else False
+            if isinstance(v, Rat):
+                if not v.is_const():
+                    raise OutOfFragment('bool() of an abstract value')
+                return v.constval() != 0
+            return bool(v)
+        if name == 'abs':
+            v = args[0]
+            return JNP['abs'](v) if isinstance(v, (Rat, np.ndarray)) else abs(v)
+        if name == 'print':
+            return None
+        if name in ('map', 'filter'):
+            f_ = args[0]
+            call = (lambda *x: self.apply(f_, list(x), {})) if not callable(f_) else f_
+            if isinstance(f_, tuple) and f_ and f_[0] == 'builtin':
+                call = lambda *x, _n=f_[1]: self.builtin(_n, list(x), {})
+            return list(map(call, *args[1:])) if name == 'map' else [x for x in args[1] if call(x)]
+        if name in ('frozenset', 'divmod', 'round', 'pow', 'callable', 'slice', 'ord', 'chr', 'repr', 'iter', 'next', 'id', 'type',
+                    'format', 'bytes', 'bytearray'):
+            import builtins as _b
+            conv = [int(a.constval()) if isinstance(a, Rat) and a.is_const() and a.constval() == int(a.constval()) else a for a in args]
+            return getattr(_b, name)(*conv, **kw)
         raise OutOfFragment('builtin ' + name)
 
     def bound(self, what, v, args, kw):
